@@ -326,15 +326,54 @@ pub fn run<T: HashAlgorithm>(cs: &CrashScript, scratch: &Path, out: &mut dyn Wri
         if target && !events.is_empty() {
             // raw I/O events for SyncTrace
             let failable = events.iter().filter(|e| e.phase == "begin" && matches!(e.kind.as_str(), "write"|"append"|"setlen"|"fsync"|"dirsync"|"unlink"|"create"|"submit")).count();
+            let pre_sum = pre_summary(pre.as_ref().unwrap());
             writeln!(evout, "{}", json!({"ev":"op","run":sc.run,"i":idx,"op":step,"res":ev.get("res"),"n":events.len(),"failable":failable,
-                                         "pre": pre_summary(pre.as_ref().unwrap())}))?;
+                                         "pre": pre_sum}))?;
             for e in &events {
                 let mut j = ev_json(e);
                 j["ev"] = json!("io");
                 j["run"] = json!(sc.run);
+                if let Ok(spec) = std::env::var("NVH_DEBUG_PAGE") {
+                    // debugging aid: NVH_DEBUG_PAGE=ln:4408 prints the head of the data written to that page
+                    if let Some((f, pn)) = spec.split_once(':') {
+                        if e.file == f && e.phase == "begin" && e.offset.to_string() == pn {
+                            if let Some(d) = &e.data {
+                                eprintln!("DEBUG-PAGE run {} step {} {} {} {}: {}", sc.run, idx, e.kind, f, pn, hex::encode(&d[..d.len().min(48)]));
+                                if let Some(old) = pre.as_ref().and_then(|p| p.vol.get(&e.file)).and_then(|f| f.pages.get(&e.offset)) {
+                                    let diff: Vec<usize> = (0..d.len().min(old.len())).filter(|i| d[*i] != old[*i]).collect();
+                                    eprintln!("   len {} old len {} differing bytes {} first {:?}", d.len(), old.len(), diff.len(), &diff[..diff.len().min(8)]);
+                                } else {
+                                    eprintln!("   no such page in the pre-image");
+                                }
+                            }
+                        }
+                    }
+                }
                 if e.file == "meta" && e.kind == "write" {
                     if let Some(d) = &e.data {
                         j["metaSeqn"] = json!(u32::from_le_bytes(d[24..28].try_into().unwrap()));
+                    }
+                }
+                if (e.file == "ln" || e.file == "bbn") && e.kind == "submit" && e.phase == "begin" {
+                    // does this write put back exactly what the page holds in the image the call started from?
+                    if let (Some(d), Some(p)) = (&e.data, pre.as_ref()) {
+                        if let Some(old) = p.vol.get(&e.file).and_then(|f| f.pages.get(&e.offset)) {
+                            // a page of the pre-image's free list is meaningful up to its last entry only (the two
+                            // bytes behind 1022 entries, and everything behind fewer, are never read)
+                            let is_fl = pre_sum[&e.file]["flPages"].as_array().map_or(false, |a| a.iter().any(|x| x.as_u64() == Some(e.offset)));
+                            let meaningful = if is_fl {
+                                (6 + 4 * u16::from_le_bytes([old[4], old[5]]) as usize).min(old.len())
+                            } else {
+                                old.len()
+                            };
+                            if d.len() == old.len() && d[..meaningful] == old[..meaningful] {
+                                j["same"] = json!(true);
+                            } else if std::env::var("NVH_DEBUG_SAME").is_ok() {
+                                j["sameDiff"] = json!((0..d.len().min(old.len())).filter(|i| d[*i] != old[*i]).count());
+                            }
+                        } else if std::env::var("NVH_DEBUG_SAME").is_ok() {
+                            j["sameDiff"] = json!("no-page");
+                        }
                     }
                 }
                 writeln!(evout, "{}", j)?;
